@@ -15,6 +15,10 @@ package par1
 //@ func (fileIO).WriteFile
 //@   assume-contract environment: ioutil.WriteFile / memfs
 //@   modifies nothing
+//@   ghost-set gWrites = gWrites + 1
+//@   ghost-set gWritesOK = ite(result == nil, gWritesOK + 1, gWritesOK)
+//@   ghost-set gLastWriteOK = (result == nil)
+//@   ghost-set gLastWritePath = path
 
 // ---- header.go, file_entry.go, volume.go: parsers of untrusted bytes ----------
 
@@ -134,17 +138,35 @@ package par1
 //@   props C13 C19 C04
 //@   requires d.shardByteCount >= 0 && d.shardByteCount <= 70368744177664
 
+// C02: every file handed to WriteFile has exactly the length, MD5 and 16k-MD5 of its own
+// (saved) file entry and was unusable before; a path is listed only directly after its own
+// successful write, and every successful write is listed.
 //@ func (*Decoder).Repair
-//@   props C13 C19 C04 C02
+//@   props C13 C19 C04 C02 C10 C14
 //@   requires decoderOK(d) && d.shardByteCount >= 0 && d.shardByteCount <= 70368744177664
+//@   assert-call fileIO.WriteFile : mathint(len(arg1)) == mathint(entry.header.FileBytes) && md5(bytes(arg1)) == entry.header.Hash && md5(bytes(arg1[:min(len(arg1), 16384)])) == entry.header.SixteenKHash
+//@   assert-call fileIO.WriteFile : entry.header.Status % 2 == 1
+//@   assert-call append : gLastWriteOK && gLastWritePath == path
+//@   ensures len(result0) == gWritesOK - old(gWritesOK)
 //@   loop 0
 //@     invariant decoderOK(d)
 //@     invariant fresh(shards)
 //@     invariant len(shards) == len(d.fileData) + len(d.parityData)
 //@     invariant i >= -1 && i < len(d.fileData) + 0 || i == -1
 //@     invariant cap(repairedPaths) == 0 || fresh(repairedPaths)
+//@     invariant len(repairedPaths) == gWritesOK - old(gWritesOK)
 
 //@ func RepairErrorMeansRepairNecessaryButNotPossible
 //@   props C20
 //@   pure
 //@   ensures result == (err == reedsolomon.ErrTooFewShards)
+
+// The adapters to the real filesystem pass their arguments and results straight through.
+//@ func (defaultFileIO).WriteFile
+//@   props C02 C14 C18
+//@   assert-call io/ioutil.WriteFile : arg0 == path && sameSlice(arg1, data)
+//@   ensures result == lastcall("io/ioutil.WriteFile")
+//@ func (defaultFileIO).ReadFile
+//@   props C02 C18
+//@   assert-call io/ioutil.ReadFile : arg0 == path
+//@   ensures result1 == lastcall("io/ioutil.ReadFile", 1)
